@@ -34,9 +34,12 @@ CHECKS.update({
               "with a lossy/duplicating/reordering network. TLC checks Prefix/MsgPrefix exhaustively on small instances (stream, message, "
               "fast modes). TLC-generated behaviours and goal-directed witnesses are replayed on two real KCP objects under virtual "
               "time with the full projected state compared per step; every Recv's bytes are checked against the writer's stream; "
-              "recorded traces (replays + seeded random lossy runs) are validated by TLC: KcpObs monitors decide, KcpCoreTrace "
-              "conformance reports drift."),
-        design_ref="§4 C01, §3.2", note=CORE_NOTE + " Raw-core level in this round; session level is covered by the session checks.",
+              "recorded traces (replays + seeded random lossy runs + hand-written boundary scripts: messages of 254..257 fragments, too-small "
+              "Recv buffers, forged fragment trains, zero-window / loss-and-fast schedules) are validated by TLC: KcpObs monitors decide, "
+              "KcpCoreTrace conformance reports drift. Session level: 150 transfers judged by SessObs -- every Read returns the next bytes, "
+              "and in message mode exactly min(buffer, rest of the current message). A genuine defect (stream-mode Send keeping part of a "
+              "buffer it refuses) was repaired."),
+        design_ref="§4 C01, §3.2, §5", note=CORE_NOTE,
         technique="TLA+ spec of the ARQ core + TLC; behaviour replay with per-step state comparison; TLC trace validation"),
     "C02": dict(
         category="model_checking",
@@ -45,7 +48,8 @@ CHECKS.update({
               "flush both ends every interval); the exact timed model must then be drained within HealBound -- a wedge (data never "
               "retransmitted, ACK never sent, queue not advancing) shows up as a bound violation. On the code every replayed behaviour, "
               "goal witness and seeded random lossy run (both drives) ends with the same settling phase and the C02 monitors (Drained, "
-              "WithinBound computed by TLC from the state logged at the heal instant) decide. TLC finds one wedge of the pinned code "
+              "WithinBound computed by TLC from the state logged at the heal instant) decide; boundary scripts add the zero-window schedules "
+              "(over-estimated window, burst of w+1..2w, the single window update lost). TLC finds one wedge of the pinned code "
               "(message with more fragments than the receiver's window), reproduced on the code each run: listed known finding."),
         design_ref="§4 C02", note=CORE_NOTE + " Liveness is checked as bounded progress on the exact timed model (deterministic healed phase), not as a temporal formula under fairness.",
         technique="TLA+ timed model with deterministic healed phase + TLC (bounded-progress invariant); settle-phase traces judged by TLC monitors"),
@@ -55,14 +59,17 @@ CHECKS.update({
               "fast mode; within the budget any datagram (in particular every WASK/WINS/ACK) may be lost; Prefix and the C04 bounds "
               "hold throughout and the transfer completes within HealBound (which includes the 120 s probe cap) after the reader "
               "resumes. On the code: seeded stall scenarios (pause 0.1 s..10 min of virtual time at a random point, every control-only "
-              "datagram lost during a sub-interval, windows 1..32, both drives) with the same monitors."),
+              "datagram lost during a sub-interval, windows 1..32, both drives) and the zero-window boundary scripts, with the same monitors."),
         design_ref="§4 C03", note=CORE_NOTE,
         technique="TLA+ timed model with paused reader + TLC; virtual-time stall scenarios judged by TLC monitors"),
     "C04": dict(
         category="model_checking",
         text=("The C04 bounds are invariants of KcpNet.tla checked by TLC including forged-segment steps (boundary classes of sn/una/wnd/ts); "
               "admission is checked at the flush hook (segments admitted vs. min(snd_wnd, rmt_wnd, cwnd)); the same formulas are "
-              "evaluated by TLC on the state observed after every API call and datagram of replayed and random runs of the real core. "
+              "evaluated by TLC on the state observed after every API call and datagram of replayed and random runs of the real core, and of "
+              "boundary scripts (one flush that declares a timeout loss AND retransmits fast/early; forged fragment trains). Session level: the "
+              "write-admission hook (fires under the session mutex in the queuing branch of WriteBuffers) must show fewer than a send window "
+              "of segments pending at every admission, and both ends' queue lengths are sampled throughout 100 transfers. "
               "One corner of the 'nothing new after a timeout loss' clause fails on the pinned code and is a listed known finding."),
         design_ref="§4 C04, §3.2", note=CORE_NOTE,
         technique="TLA+ invariants + TLC incl. adversarial Forge action; monitors over observed state via TLC trace validation"),
@@ -72,7 +79,9 @@ CHECKS.update({
               "at session level random byte strings of boundary lengths and structure-aware mutations of captured datagrams are injected "
               "into live lossy traffic on listener and dialled paths for every cipher/FEC class; a panic anywhere in the library ends the "
               "run and is the violation; queue lengths, shard sets and pool balance are sampled and judged by TLC monitors (C05_Bounds). "
-              "The raw core and the FEC decoder are fed forged/garbage input by the C04/C07 stages (C05_NoPanic, C05_DecoderBounded)."),
+              "Raw core: boundary scripts (forged fragment trains with inconsistent frg bytes read with a buffer of exactly PeekSize(), "
+              "fragment-count boundaries, three reservations in one flush) validated against KcpCore.tla; bare FEC decoder: sequence ids "
+              "altered into the boundary regions of the id space with thousands of distinct shard ids (C05_DecoderBounded)."),
         design_ref="§4 C05", note="Not coverage-guided fuzzing; 'does not panic' is observed, not modelled. Trusted: synctest, simnet, the sanitizer hooks.",
         technique="model-derived boundary classes + seeded mutation of captured traffic; TLC monitors over sampled bounds"),
     "C06": dict(
@@ -82,7 +91,8 @@ CHECKS.update({
               "for every class and cipher kind. On the code, corruptions that the check is guaranteed to catch (AEAD bit flips; bursts of "
               "<=32 bits / changed CRC applied through the reference cipher; too-short datagrams) of captured datagrams of every kind are "
               "injected into listener (known and unknown source) and dialled session for 13 ciphers; deep digests before/after and the "
-              "counter delta are judged by the C06 monitors via TLC."),
+              "counter delta are judged by the C06 monitors via TLC. The session's own input routing is bound to FrameRouting!SessionEffect by "
+              "trace validation (SessionRouteTrace): crafted datagrams of every class, three cipher kinds, exits reported by the input hooks."),
         design_ref="§4 C06, §3.4", note="Trusted: reference ciphers/CRC32 (independent of crypt.go), VerifDigest (verif tag), synctest quiescence (synctest.Wait).",
         technique="TLA+ routing decision model + TLC; guaranteed-detectable corruption injection judged by TLC monitors"),
     "C08": dict(
@@ -102,7 +112,10 @@ CHECKS.update({
               "session runs (all ciphers/FEC/MTU/window/mode classes, loss, duplication, reordering, outages, SetMtu, OOB) is decoded at the "
               "WriteTo boundary by a parser written from README.md with reference ciphers, CRC32 and a fresh Reed-Solomon codec; TLC judges "
               "layout, FEC numbering (Fec.tla's id/type rule incl. skipped parity), parity = RS code of the padded size-prefixed payloads, "
-              "nonce and datagram freshness, and that the stream reassembled from the wire alone equals what was written."),
+              "nonce and datagram freshness (the shared entropy source positioned just before its periodic reseed in a third of the runs), and "
+              "that the stream reassembled from the wire alone equals what was written. Dialled sessions' FEC encoders start one or two "
+              "groups before the wrap value of the sequence ids, idle gaps make the encoder skip parity: ids must stay in the documented "
+              "range and type must match the absolute id's position. A genuine defect (SM4) was repaired."),
         design_ref="§4 C09, §3.4", note="Trusted: the independent parser and reference evaluators in harness/wire and harness/refcrypt.",
         technique="TLA+ framing model + TLC; independent wire decoder; TLC monitors over every datagram"),
     "C10": dict(
@@ -135,7 +148,11 @@ CHECKS.update({
               "CloseWakesAll, ErrorWakesAll for 1-3 callers over all deadline scripts. The 'pinned' variant (the code before the repair) is "
               "kept: TLC must still find the repaired defects in it. TLC-generated scripts run on real dialled and accepted sessions in "
               "virtual time; what each call returned and at which virtual second is judged by the WaitObs monitors and must be explainable by "
-              "SessionWait (WaitTrace, nondeterministic token hand-off left to TLC). Accept and after-Close clauses are scripted API cases. "
+              "SessionWait (WaitTrace, nondeterministic token hand-off left to TLC), on {dialled, accepted} x {callers blocked in Read, callers "
+              "blocked in Write behind a full send window}; every sequence of <= 3 deadline changes is enumerated on both sides; Close, a "
+              "failing transport and the Close of a listener that owns its transport are issued while callers are blocked; the monitors are "
+              "evaluated at every tick (nobody blocked although closed / failed / the resource is there / the deadline is reached), not only "
+              "at the end. Accept and after-Close clauses are scripted API cases. "
               "Two listed known findings (deadline change with concurrent callers; Accept deadline changed while blocked)."),
         design_ref="§4 C13, §3.6", note="Trusted: synctest's virtual clock and synctest.Wait as the quiescence detector.",
         technique="TLA+ model of the wait loops + TLC; TLC-generated scripts on real sessions; trace validation with silent steps"),
@@ -145,7 +162,10 @@ CHECKS.update({
               "that after every order of Close calls they all terminate (ReleasedHeld). On the code every session run ends by closing client, "
               "accepted session, listener and transport in a seeded order (half of them in mid-transfer); 12 virtual seconds later no "
               "goroutine with a kcp-go frame may remain in the bubble; the pool sanitizer reports double Put and writes into recycled "
-              "buffers; TLC monitors decide. A leak of sessions never handed out by Accept is a listed known finding."),
+              "buffers; TLC monitors decide. Variants: paced output (SetRateLimit) so that Close finds the post-processing queue busy, "
+              "transports failing writes before Close, sessions/listeners that own their transport, and a FORCED interleaving (the input "
+              "hook as scheduler gate): a datagram past the receive loop's closed-check is processed after Close has completed. "
+              "A leak of sessions never handed out by Accept is a listed known finding (its model-level form must still be refuted by TLC)."),
         design_ref="§4 C15", note="Trusted: synctest's bubble goroutine tracking, runtime.Stack parsing, the sanitizer (verif tag).",
         technique="TLA+ lifecycle model + TLC (liveness); bubble leak detection + pool sanitizer judged by TLC monitors"),
     "C17": dict(
@@ -162,7 +182,9 @@ CHECKS.update({
         text=("Frame.tla: OOBConsumesNoSeqid (action property), OOBNeverEntersFecOrKcp, refusal rule and LenBound for OOB are model-checked. "
               "On the code OOB messages of boundary lengths are interleaved with Write traffic in both directions under loss; every handler "
               "invocation must equal a message sent by that session's peer, refusal exactly for oversize/no-FEC, the FEC id sequence on the "
-              "wire must be unaffected and the stream monitors (C01/C02) must stay green on the same runs."),
+              "wire must be unaffected and the stream monitors (C01/C02) must stay green on the same runs; well-formed OOB datagrams of OTHER "
+              "conversations between the same two addresses must not reach the handler (a genuine defect of the dialled side was repaired); "
+              "the session's input routing is validated against FrameRouting!SessionEffect (SessionRouteTrace)."),
         design_ref="§4 C19", note="Trusted as C09.",
         technique="TLA+ framing model + TLC; session runs with OOB judged by TLC monitors"),
     "C07": dict(
@@ -180,7 +202,7 @@ CHECKS.update({
         text=("FecNet.tla with differing encoder/decoder ratios and the auto-tuner (autotune.go FindPeriod transcribed): TLC checks Converges "
               "(after an uninterrupted run of RingN+2(d+p) packets, ring scaled to 10, after every fault pattern in the budget, wrap inside "
               "the run) and Stable (matching ratios never retune under any fault pattern). On the code every pair with d+p<=6 plus sampled "
-              "pairs to 255, at several positions incl. just below the real wrap value: faulty prefix, exactly 258+2(d+p) in-order packets, "
+              "pairs to 255 and boundary pairs with d+p = 255 / 254, at several positions incl. just below the real wrap value: faulty prefix, exactly 258+2(d+p) in-order packets, "
               "then the adopted ratio and loss recovery are judged by the C16/C07 monitors via TLC."),
         design_ref="§4 C16, §3.3", note="Trusted as C07. Session-level delivery under mismatch is exercised by the session checks.",
         technique="TLA+ spec incl. auto-tuner + TLC; exhaustive small-pair drives validated by TLC monitors"),
@@ -189,15 +211,18 @@ CHECKS.update({
         text=("Design level: KcpNet is model-checked in a scaled sequence/clock space (Mod=4096) with offsets that make sn and clock wrap "
               "mid-run. Code level: every generated behaviour is executed at offset 0 and at offsets near 2^31/2^32; the normalised "
               "observations (returns, every datagram header field, full state) are paired and TLC requires them identical, and both "
-              "runs must conform to the offset-free specification."),
-        design_ref="§4 C12", note=CORE_NOTE + " FEC sequence-id wrap is covered by the FEC checks.",
+              "runs must conform to the offset-free specification. FEC ids: the same history (incl. parity skipped at exactly the last group "
+              "before the wrap value) at encoder/decoder position 0 and just before the wrap value must stamp the same relative ids and "
+              "reconstruct the same packets (FecObs!C12_ShiftInvariant); session level: encoders positioned before the wrap value, wire monitors."),
+        design_ref="§4 C12", note=CORE_NOTE,
         technique="TLC on a scaled modular space; metamorphic replay (shifted vs unshifted) judged by a TLC pair monitor"),
     "C18": dict(
         category="model_checking",
         text=("Clean-path instance of KcpNet (FIFO, no loss, reader keeps up) model-checked for 'xmit <= 1, no retransmission counted'; "
               "RtoBounds is part of the endpoint invariant in all instances incl. forged ACK timestamps and 30 s outages. On the code: "
               "event-driven clean runs in virtual time (both drives, random delays/intervals satisfying the precondition) and forged-ACK "
-              "runs, judged by C18 monitors via TLC."),
+              "runs incl. echoed timestamps over the whole non-negative range of the signed 32-bit difference (days, weeks in the past), "
+              "judged by C18 monitors via TLC."),
         design_ref="§4 C18", note=CORE_NOTE,
         technique="TLA+ clean-path instance + TLC; virtual-time clean runs validated by TLC monitors"),
 })
